@@ -75,15 +75,16 @@ PROPS['C14'] = dict(
     groups=[dict(template='c14_corrupt.rs')],
     kani=[dict(crate='float_lemmas', harnesses=['zero_prob_never_fires', 'clamp_keeps_unit_interval'],
                domain='all f64 pairs with 0 <= r < 1 and p == 0.0 (complete over this domain: loop-free, fully symbolic)')],
-    claim='preprocessing::corrupt_whitespace (the boxed closure, lifted by rule R22 into a function of (iw_p, dw_p, use_graphemes, text, info)): returns Ok, never panics (the constructor assertion is the stated domain), and the output string is flat(co(cs, d)) for SOME decision bits d, one per character: a whitespace character is kept or dropped, a non-whitespace character is kept or gets ONE space in front and only if it is not the first character and its predecessor is not whitespace; a probability of value zero never fires (delete probability 0: no whitespace disappears; insert probability 0: none appears; float bridge = Kani lemma zero_prob_never_fires). Pure lemmas from that contract: for a clean text the corrupted character sequence is again clean and has the same non-whitespace characters (both modes, character level); in code-point mode the corrupted STRING satisfies the precondition ops_pre of whitespace::operations(corrupted, text), so contract C10 gives one label per input character and exact recovery by repair. The target is untouched by construction (the function receives the text by shared reference and returns a new String).',
+    claim='preprocessing::corrupt_whitespace (the boxed closure, lifted by rule R22 into a function of (iw_p, dw_p, use_graphemes, text, info)): returns Ok, never panics (the constructor assertion is the stated domain), and the output string is flat(co(cs, d)) for SOME decision bits d, one per character: a whitespace character is kept or dropped, a non-whitespace character is kept or gets ONE space in front and only if it is not the first character and its predecessor is not whitespace; a probability of value zero never fires (delete probability 0: no whitespace disappears; insert probability 0: none appears; float bridge = Kani lemma zero_prob_never_fires). Pure lemmas from that contract: for a clean text the corrupted character sequence is again clean and has the same non-whitespace characters (both modes, character level); in code-point mode the corrupted STRING satisfies the precondition ops_pre of whitespace::operations(corrupted, text), so contract C10 gives one label per input character and exact recovery by repair. The target is untouched by construction (the function receives the text by shared reference and returns a new String). Determinism: the output is the corruption by exactly the bits seeded_bits(chars, info.seed, iw_p, dw_p) -- draw i of the ChaCha8 stream seeded with info.seed decides character i -- so it depends on (text, seed) and the configured parameters only.',
     not_covered=['grapheme mode at string level: that the grapheme segmentation of the corrupted STRING is the corrupted character sequence (an inserted space could in principle join a following cluster that starts with an extending code point) is not proved; the character-level statement holds in both modes',
-                 'determinism in (text, seed): follows from the generator being seeded with info.seed and nothing else being read, which is visible in the verified text but is not a postcondition (a change to an unseeded generator would be an unknown callee = undecided)',
+                 'determinism in (text, seed) is proved in one fixed form only: the output is corrupted_by(.., seeded_bits(.., info.seed, ..)), i.e. draw i of the stream seeded with info.seed decides character i.  That is stronger than the statement (another seeded scheme would be deterministic too), so on CHANGED code a failure of these clauses is reported only together with a failing input (stronger_than_statement) and is undecided otherwise',
                  'apply(Part::Input, ..) / whitespace_correction_input (task.rs): closures over the tokenizer; the label-count consequence is the composition with C10 and C01, not a contract on those closures'],
     assumptions=['CharString::new/chars/get_char split a string into characters; in code-point mode the characters are the code points (axiom_code_point_chars)',
                  'rand: ChaCha8Rng::seed_from_u64 / random::<f64>() is a deterministic stream of values in [0,1)',
                  'f64::clamp / f64 comparison are uninterpreted in Verus; only the Kani lemma relates them', 'itertools join("") concatenates', 'String + &str appends'],
     domain=['at least one probability positive after clamping (the constructor assertion)'],
     input_search=True,
+    stronger_than_statement=[r'seeded_bits?\(', r'rng_state\(rng\)'],
     bounded_probe=dict(label='corrupt_whitespace(string-level)', file='src/data/preprocessing.rs', line=329,
                        what='the whole statement at STRING level in both modes through the public preprocessing() API (same non-whitespace characters, clean, operations/repair recover the text with one label per character, target untouched, deterministic, zero probabilities never fire); this is the only check of the grapheme-mode string-level clause',
                        bound='every whitespace-clean text of at most 4 code points over {a, b, space, CR, LF, U+0001, U+0301, U+200D, U+0600, U+1F1E9, U+1100, U+1161, U+1F600} x use_graphemes in {true,false} x (iw,dw) in {(1,0),(0,1),(0.5,0.5)} x seeds 0..2 (each also with file_idx 1 and 3 and a non-empty marks map, which must not matter); plus train_task(WhitespaceCorrection) on 5 texts with literal special-token spellings: one label per token'),
